@@ -685,7 +685,7 @@ def gen_cases(rng, tier):
                     draws = [str(p - F(1, 2 ** 30)) if mask >> i & 1 else str(p + F(1, 2 ** 30)) for i in range(len(edges))]
                     cases.append(dict(base, kind='perc', p=str(p), draws=draws))
     n_exh = len(cases)
-    nrand = 250 if tier == 'quick' else 4000
+    nrand = 250 if tier == 'quick' else 20000
     for i in range(nrand):
         n = rng.choice([1, 2, 3, 5, 6, 8, 10, 12]) if i % 10 else 0
         sch, perm = rand_labels(rng, n)
